@@ -19,15 +19,53 @@ W = dict(authorize=18, redeem=24, parse=2, process=2, refresh=30, userinfo=2, in
          revokeGrant=1, revokeClient=0.5, revokeUser=0.2, remove=0.5, tick=3)
 
 
+def _narrow_ops(c):
+    """redeem, refresh with a narrowed scope that keeps offline_access (a narrow RT2 is issued), refresh RT2 without scope, then ask for
+    scopes that were requested but filtered out / never requested; introspect every access token"""
+    rng = random.Random(c["seed"])
+    cl = c["client"]
+    red = f"https://{cl}.example.com/cb"
+    req = ["openid", "offline_access", "email", "profile", "phone"]
+    R = prov.Runner(c["oidc"], c["jwt"])
+    ops = []
+
+    def do(o):
+        ops.append(o)
+        return R.op(o)
+    do(["authorize", "diana", cl, req, red])
+    do(["tokenParse", cl, 1, red])
+    r = do(["tokenProcess", 0])
+    rt = r[2] if r[0] == "tokens" else -1
+    granted = r[4] if r[0] == "tokens" else []
+    narrow = ["offline_access"] + rng.sample([x for x in granted if x != "offline_access"], min(1, max(0, len(granted) - 1)))
+    r2 = do(["refresh", cl, rt, narrow])
+    rt2 = r2[2] if r2[0] == "tokens" and r2[2] >= 0 else rt
+    do(["refresh", cl, rt2, None])
+    do(["refresh", cl, rt2, ["profile"]])
+    do(["refresh", cl, rt2, rng.choice([["foo"], ["address"], granted, ["openid", "profile"]])])
+    do(["refresh", cl, rt, None])
+    for t in sorted(R.val):
+        do(["introspect", cl, t])
+    return ops
+
+
 def cases(rng, tier):
     n = {"quick": 60, "thorough": 900, "search": 600}[tier]
-    return [{"t": "hist", "oidc": rng.random() < 0.6, "jwt": rng.random() < 0.4, "gen_seed": rng.getrandbits(48),
+    out = []
+    for oidc in (True, False):
+        for jwt in (True, False):
+            for cl in ("client_1", "client_2", "client_3"):
+                for _ in range({"quick": 1, "thorough": 6, "search": 4}[tier]):
+                    out.append({"t": "narrow", "oidc": oidc, "jwt": jwt, "client": cl, "seed": rng.getrandbits(32)})
+    return out + [{"t": "hist", "oidc": rng.random() < 0.6, "jwt": rng.random() < 0.4, "gen_seed": rng.getrandbits(48),
              "n": rng.randint(8, 22 if tier == "quick" else 40)} for _ in range(n)]
 
 
 def _ops_for(c):
     if "ops" in c:
         return c["ops"]
+    if c["t"] == "narrow":
+        return _narrow_ops(c)
     ops, _ = prov.gen_adaptive(random.Random(c["gen_seed"]), c["n"], oidc=c["oidc"], jwt=c["jwt"], weights=W)
     return ops
 
@@ -100,10 +138,7 @@ def oracle(c, obs):
 
 
 def known_key(c, v, known):
-    for f in known:
-        if all(v.get(k) == val for k, val in f["match"].items()):
-            return f["key"]
-    return None
+    return common.known_key(c, v, known)
 
 
 def classify(c, obs):
